@@ -336,6 +336,13 @@ func envOr(k, d string) string {
 	return d
 }
 
+func envInt(k string, d int) int {
+	if v, err := strconv.Atoi(os.Getenv(k)); err == nil {
+		return v
+	}
+	return d
+}
+
 type backend struct {
 	name string
 	argv []string
@@ -344,6 +351,9 @@ type backend struct {
 
 func (s *Solver) fallback(extra *Term, wantModel bool) (SatResult, Model) {
 	script := s.dump(extra, wantModel)
+	if d := os.Getenv("SYMGO_DUMPQ"); d != "" {
+		os.WriteFile(fmt.Sprintf("%s/fallback%d.smt2", d, atomic.AddInt64(&gDumped, 1)), []byte(script), 0o644)
+	}
 	muldiv := false
 	seen := map[*Term]bool{}
 	for _, a := range s.asserts {
